@@ -465,3 +465,100 @@ theorem tokenize_ok {cc : CharClass} {text : List Char} {ts : List Tok}
     · split at h
       · rename_i hf; cases h; exact hf
       · cases h
+
+theorem scan_first_not_lineBreak (cc : CharClass) (fuel pos : Nat) (cs : List Char) (s : LexState)
+    (h : ∀ t, s.toks.getLast? = some t → t.kind ≠ .terminatorLineBreak) :
+    ∀ t, (scan cc fuel pos cs s).toks.getLast? = some t → t.kind ≠ .terminatorLineBreak := by
+  have hstep : ∀ (pos : Nat) (cs : List Char) (s : LexState) (pos' : Nat) (cs' : List Char)
+      (s' : LexState), (∀ t, s.toks.getLast? = some t → t.kind ≠ .terminatorLineBreak) →
+      StepOK pos cs s pos' cs' s' →
+      (∀ t, s'.toks.getLast? = some t → t.kind ≠ .terminatorLineBreak) := by
+    rintro pos cs s pos' cs' s' hi ⟨lex, _, _, _, _, ht | ⟨k, ht, hk, _⟩⟩
+    · rw [ht]; exact hi
+    · rw [ht]
+      cases hs : s.toks with
+      | nil =>
+        intro t ht'
+        cases ht'
+        intro hk'
+        have := hk hk'
+        simp [lastCanEnd, hs] at this
+      | cons x r =>
+        intro t ht'
+        rw [List.getLast?_cons_cons] at ht'
+        exact hi t (by rw [hs]; exact ht')
+  obtain ⟨_, _, h⟩ := scan_inv cc
+    (fun _ _ s' => ∀ t, s'.toks.getLast? = some t → t.kind ≠ .terminatorLineBreak) hstep fuel pos cs s h
+  exact h
+
+theorem filterToks_head : ∀ (n : Tok) (r ts : List Tok), filterToks (n :: r) = some ts →
+    n.kind ≠ .terminatorLineBreak → ∃ r', ts = n :: r' := by
+  intro n r ts h hn
+  rw [filterToks] at h
+  split at h
+  · cases h
+  · rw [if_neg hn] at h
+    cases h
+    exact ⟨_, rfl⟩
+
+theorem canStart_lineBreak {k : TokKind} (h : Generated.canStart k = some true) :
+    k ≠ .terminatorLineBreak := by
+  intro hk; subst hk; simp [Generated.canStart] at h
+
+theorem filterToks_last : ∀ (l ts : List Tok), filterToks l = some ts →
+    ∀ t, ts.getLast? = some t → t.kind ≠ .terminatorLineBreak
+  | [], ts, h => by simp [filterToks] at h; subst h; simp
+  | t :: rest, ts, h => by
+    rw [filterToks] at h
+    split at h
+    · cases h
+    · rename_i rest' hr
+      have ih := filterToks_last rest rest' hr
+      split at h
+      · split at h
+        · cases h; exact ih
+        · rename_i n r'
+          split at h
+          · cases h
+          · rename_i hn
+            cases h
+            obtain ⟨r'', rfl⟩ := filterToks_head n _ _ hr (canStart_lineBreak hn)
+            intro x hx
+            rw [List.getLast?_cons_cons] at hx
+            exact ih x hx
+          · cases h; exact ih
+      · rename_i ht
+        cases h
+        cases rest' with
+        | nil => intro x hx; cases hx; exact ht
+        | cons y r' =>
+          intro x hx
+          rw [List.getLast?_cons_cons] at hx
+          exact ih x hx
+
+/-- the token's range contains exactly the token's own text -/
+def Slice (text : List Char) (t : Tok) : Prop :=
+  ∃ pre lex post, text = pre ++ lex ++ post ∧ bytesOf pre = t.start ∧
+    bytesOf lex = t.stop - t.start ∧ lexOK t.kind lex
+
+theorem scan_slice (cc : CharClass) (text : List Char) (fuel pos : Nat) (cs : List Char)
+    (s : LexState) (h0 : ∃ pre, text = pre ++ cs ∧ bytesOf pre = pos)
+    (h : ∀ t ∈ s.toks, Slice text t) : ∀ t ∈ (scan cc fuel pos cs s).toks, Slice text t := by
+  have hstep : ∀ (pos : Nat) (cs : List Char) (s : LexState) (pos' : Nat) (cs' : List Char)
+      (s' : LexState),
+      ((∃ pre, text = pre ++ cs ∧ bytesOf pre = pos) ∧ ∀ t ∈ s.toks, Slice text t) →
+      StepOK pos cs s pos' cs' s' →
+      ((∃ pre, text = pre ++ cs' ∧ bytesOf pre = pos') ∧ ∀ t ∈ s'.toks, Slice text t) := by
+    rintro pos cs s pos' cs' s' ⟨⟨pre, hp1, hp2⟩, hi⟩ ⟨lex, _, rfl, rfl, _, ht | ⟨k, ht, _, hl⟩⟩
+    · refine ⟨⟨pre ++ lex, by rw [hp1, List.append_assoc], by rw [bytesOf_append, hp2]⟩, ?_⟩
+      rw [ht]; exact hi
+    · refine ⟨⟨pre ++ lex, by rw [hp1, List.append_assoc], by rw [bytesOf_append, hp2]⟩, ?_⟩
+      rw [ht]
+      intro t htm
+      rcases List.mem_cons.1 htm with rfl | htm
+      · exact ⟨pre, lex, cs', by rw [hp1, List.append_assoc], hp2, by dsimp only; omega, hl⟩
+      · exact hi t htm
+  obtain ⟨_, _, _, h⟩ := scan_inv cc
+    (fun p c s' => (∃ pre, text = pre ++ c ∧ bytesOf pre = p) ∧ ∀ t ∈ s'.toks, Slice text t)
+    hstep fuel pos cs s ⟨h0, h⟩
+  exact h
